@@ -59,6 +59,7 @@ type APIDesc struct {
 	Global          []string `json:"global_produces,omitempty"`
 	Ops             []OpDesc `json:"ops"`
 	Realm           *string  `json:"realm,omitempty"` // nil: security.BasicAuth (library default realm)
+	NoOpIDs         bool     `json:"no_operation_ids,omitempty"` // the operations declare no operationId
 }
 
 // OpDesc is one operation at /op<i>.
@@ -68,6 +69,7 @@ type OpDesc struct {
 	Codes    []int    `json:"codes,omitempty"` // declared status-code responses
 	Default  bool     `json:"default_response,omitempty"`
 	Secured  bool     `json:"secured,omitempty"`
+	Alt      bool     `json:"alt_key_after_basic,omitempty"` // secured by [{basic},{key}]: basic is not the last alternative
 }
 
 // Outcome is what the operation handler returns.
@@ -94,6 +96,9 @@ type Case struct {
 	API       *APIDesc `json:"api"`
 	Req       ReqDesc  `json:"req"`
 	WantOrder []string `json:"observed_produces_order,omitempty"`
+	// Warm: the requests served by the same handler just before this one (state kept across requests
+	// is part of what is judged); a replay serves them first, unjudged.
+	Warm []ReqDesc `json:"earlier_requests,omitempty"`
 }
 
 func (r *ReqDesc) lines() []string {
@@ -153,6 +158,15 @@ func (d *APIDesc) anySecured() bool {
 	return false
 }
 
+func (d *APIDesc) anyAlt() bool {
+	for _, op := range d.Ops {
+		if op.Secured && op.Alt {
+			return true
+		}
+	}
+	return false
+}
+
 func (d *APIDesc) swagger() []byte {
 	paths := map[string]interface{}{}
 	for i, op := range d.Ops {
@@ -163,12 +177,18 @@ func (d *APIDesc) swagger() []byte {
 		if op.Default || len(op.Codes) == 0 {
 			resp["default"] = map[string]interface{}{"description": "default"}
 		}
-		o := map[string]interface{}{"operationId": fmt.Sprintf("op%d", i), "responses": resp}
+		o := map[string]interface{}{"responses": resp}
+		if !d.NoOpIDs {
+			o["operationId"] = fmt.Sprintf("op%d", i)
+		}
 		if len(op.Produces) > 0 {
 			o["produces"] = op.Produces
 		}
 		if op.Secured {
 			o["security"] = []interface{}{map[string]interface{}{"basic": []string{}}}
+			if op.Alt {
+				o["security"] = []interface{}{map[string]interface{}{"basic": []string{}}, map[string]interface{}{"key": []string{}}}
+			}
 		}
 		paths[fmt.Sprintf("/op%d", i)] = map[string]interface{}{strings.ToLower(op.Method): o}
 	}
@@ -187,7 +207,11 @@ func (d *APIDesc) swagger() []byte {
 		doc["produces"] = d.Global
 	}
 	if d.anySecured() {
-		doc["securityDefinitions"] = map[string]interface{}{"basic": map[string]interface{}{"type": "basic"}}
+		defs := map[string]interface{}{"basic": map[string]interface{}{"type": "basic"}}
+		if d.anyAlt() {
+			defs["key"] = map[string]interface{}{"type": "apiKey", "name": "X-Key", "in": "header"}
+		}
+		doc["securityDefinitions"] = defs
 	}
 	b, _ := json.Marshal(doc)
 	return b
@@ -294,6 +318,10 @@ func build(d *APIDesc) (*built, error) {
 		} else {
 			api.RegisterAuth("basic", security.BasicAuthRealm(*d.Realm, authn))
 		}
+	}
+	if d.anyAlt() {
+		// never applicable in the generated requests (no X-Key header is sent)
+		api.RegisterAuth("key", security.APIKeyAuth("X-Key", "header", func(string) (interface{}, error) { return nil, errors.Unauthenticated("key") }))
 	}
 	for i, op := range d.Ops {
 		api.RegisterOperation(op.Method, fmt.Sprintf("/op%d", i), runtime.OperationHandlerFunc(func(interface{}) (interface{}, error) {
@@ -1022,8 +1050,10 @@ func genAPI(r *rand.Rand) *APIDesc {
 			op.Default = r.Intn(3) == 0
 		}
 		op.Secured = r.Intn(4) == 0
+		op.Alt = op.Secured && r.Intn(2) == 0
 		d.Ops = append(d.Ops, op)
 	}
+	d.NoOpIDs = r.Intn(4) == 0
 	if d.anySecured() && r.Intn(3) > 0 {
 		s := realms[r.Intn(len(realms))]
 		d.Realm = &s
@@ -1118,8 +1148,13 @@ func run(m *mon.M) {
 			h, _ := b.handler()
 			hs = append(hs, h)
 		}
+		var recent []ReqDesc
 		for q := 0; q < nreq; q++ {
-			c := &Case{API: d, Req: genReq(r, d, q)}
+			c := &Case{API: d, Req: genReq(r, d, q), Warm: append([]ReqDesc(nil), recent...)}
+			recent = append(recent, c.Req)
+			if len(recent) > 3 {
+				recent = recent[1:]
+			}
 			m.Begin(c)
 			runCaseOn(m, c, b, hs[q%len(hs)])
 			if m.WantSample() {
@@ -1151,6 +1186,13 @@ func runReplayCase(m *mon.M, c *Case) {
 		h, ctx = b.handler()
 		if len(c.WantOrder) == 0 || sameList(producesOf(ctx, c.API.Ops[c.Req.Op].Method, c.Req.Op), c.WantOrder) {
 			break
+		}
+	}
+	if len(c.Warm) > 0 {
+		scratch := mon.New("C08", "quick", 0, 0, 1, "")
+		scratch.SetReplayMode()
+		for i := range c.Warm {
+			runCaseOn(scratch, &Case{API: c.API, Req: c.Warm[i]}, b, h)
 		}
 	}
 	runCaseOn(m, c, b, h)
